@@ -205,7 +205,7 @@ def classify_reject(rj):
     why = rj['why']
     t = rj.get('trace') or {}
     k = why[0]
-    if k in ('table', 'verdict', 'tree', 'threw', 'partial-line', 'context-mutations'):
+    if k in ('table', 'verdict', 'tree', 'threw', 'partial-line', 'context-mutations', 'lexer-lines'):
         return k
     if k == 'extra-events':
         import traces as tl
@@ -545,9 +545,9 @@ def check_C16(tier, seed):
             ins = ws_inputs(e.g, L if len(e.g.ts) <= 3 else L - 1, [ord('?'), 32], 250 if tier == 'quick' else 2000)
         for (v, st) in ((1, 0), (0, 0), (1, 1), (0, 1), (1, 2), (0, 2)):
             pipeline.add_jobs(e, ins, verbose=bool(v), stream=st, tag='v%ds%d_' % (v, st))
-    res, work = prun.run(entries, 'C16', design_L=None, do_product=False, tlc_procs=4 if tier == 'quick' else 8, tlc_workers=4 if tier == 'quick' else 2)
+    res, work = prun.run(entries, 'C16', design_L=None, do_product=False, tlc_procs=4 if tier == 'quick' else 8, tlc_workers=4 if tier == 'quick' else 2, keep_lex=True)
     domain = {e.gid for e in entries}
-    judge_traces(out, entries, res, {'step', 'functor', 'report', 'recovery', 'position', 'verdict', 'tree', 'extra', 'threw', 'partial-line'}, domain, per_grammar=1)
+    judge_traces(out, entries, res, {'lexer-lines', 'step', 'functor', 'report', 'recovery', 'position', 'verdict', 'tree', 'extra', 'threw', 'partial-line'}, domain, per_grammar=1)
     # outcome independence + stream text: all six runs of one input must agree; ostream text = captured lines
     ncmp = 0
     for e in entries:
@@ -1144,8 +1144,8 @@ def check_C04(tier, seed):
         entries.append(e)
     res = None
     if entries:
-        res, work2 = prun.run(entries, 'C04drv', design_L=None, do_product=False, tlc_procs=4 if tier == 'quick' else 8, tlc_workers=4 if tier == 'quick' else 2)
-        judge_traces(out, entries, res, {'table', 'step', 'functor', 'report', 'position', 'verdict', 'tree', 'extra', 'threw'}, None)
+        res, work2 = prun.run(entries, 'C04drv', design_L=None, do_product=False, tlc_procs=4 if tier == 'quick' else 8, tlc_workers=4 if tier == 'quick' else 2, keep_lex=True)
+        judge_traces(out, entries, res, {'lexer-lines', 'table', 'step', 'functor', 'report', 'position', 'verdict', 'tree', 'extra', 'threw'}, None)
     out.violations = out.violations[:12]
     if k1_cases:
         ex = '; '.join('%s lexes %r as %s' % (t, c['input'], c['real_longest_match']) for t, c in k1_cases[:3])
